@@ -25,7 +25,7 @@ RULE = (
     "consistent and shard-failure-only 'errors' flags, optional ingest_took), search / scroll pages (hits.total int or object, 0..3 hits "
     "with sort arrays over an adversarial alphabet, optional matched_queries / inner_hits / late _source after sort, pit_id, "
     "_scroll_id), composite aggregations (after_key present/absent, nested path, source names with dots); every rotation and reversal of the top-level keys; "
-    "serialisations compact / spaced / pretty x raw UTF-8 / \\u-escaped; multi-page scripts through the real Query runner. "
+    "serialisations compact / spaced / pretty x raw UTF-8 / \\u-escaped; multi-page scripts through the real Query runner; two composite-aggregation operations with different aggregation paths running concurrently through one shared Query instance (16 page-count pairs x 4 request-delay pairs); bulk responses of 40 and 1500 items (above 1 KiB / 64 KiB). "
     "non-trivial = text with at least one item or hit; distinct = the text"
 )
 ASSUMPTIONS = [
@@ -114,6 +114,12 @@ def bulk_docs(tier):
             item("create", 409, 0, {"type": "u", "reason": "errors"})]
     for combo in itertools.product(red3, repeat=3):
         yield list(combo)
+    # realistic sizes: responses well above 1 KiB and above the 64 KiB the streaming parser reads at a time, the failed item first / last / absent
+    ok, bad = item("index", 201, None, None), item("index", 429, None, {"type": "t", "reason": "a"})
+    for n in (40, 1500):
+        yield [ok] * n
+        yield [ok] * (n - 1) + [bad]
+        yield [bad] + [ok] * (n - 1)
 
 
 def check_bulk(items, flag_mode, order, style, ascii_, ingest, res):
@@ -524,6 +530,87 @@ def check_query_runner(total, size, total_form, timed_pattern, mode, res):
                       {"kind": "query", "total": total, "size": size, "total_form": total_form, "timed": timed_pattern, "mode": mode})
 
 
+def check_composite_runner(pages_a, pages_b, delays, res):
+    """two composite-aggregation operations with different aggregation paths run concurrently through ONE shared Query runner instance (as the
+    clients of a worker do): every page request of each carries the after_key of that operation's previous page, and each ends after its last page"""
+    import asyncio
+
+    from esrally.driver import runner
+
+    def script(name_path, npages, tag):
+        pages = []
+        for k in range(npages):
+            agg = {"buckets": [{"key": {"k": f"{tag}{k}"}, "doc_count": 1}]}
+            if k < npages - 1:
+                agg = {"after_key": {"k": f"{tag}{k}", "n": k}, "buckets": agg["buckets"]}
+            node = agg
+            for p_ in reversed(name_path):
+                node = {p_: node} if p_ is name_path[0] else {"doc_count": 1, p_: node}
+            pages.append({"took": 1 + k, "timed_out": False, "hits": {"total": {"value": 9, "relation": "eq"}, "hits": []}, "aggregations": node})
+        return pages
+
+    def body(name_path):
+        node = {"composite": {"sources": [{"k": {"terms": {"field": "k"}}}]}}
+        for p_ in reversed(name_path):
+            node = {"aggs": {p_: node}} if p_ is name_path[0] else {"filter": {"match_all": {}}, "aggs": {p_: node}}
+        return dict({"size": 0}, **node)
+
+    class SlowEs(ScriptedEs):
+        def __init__(self, pages, delay):
+            super().__init__(pages)
+            self.delay = delay
+
+        async def perform_request(self, method, path, params=None, body=None, headers=None):
+            await asyncio.sleep(self.delay)
+            return await super().perform_request(method, path, params=params, body=body, headers=headers)
+
+    specs = [(["by_host"], pages_a, "a", delays[0]), (["outer", "by_ip"], pages_b, "b", delays[1])]
+    q = runner.Query()
+    ess = [SlowEs(script(pth, n, tag), d) for pth, n, tag, d in specs]
+
+    async def both():
+        return await asyncio.gather(*[
+            q(es, {"operation-type": "composite-agg", "index": "idx", "body": body(pth), "pages": "all", "results-per-page": 1})
+            for es, (pth, n, tag, d) in zip(ess, specs)], return_exceptions=True)
+
+    CLOCK.start()
+    v = None
+    try:
+        try:
+            results, _ = vloop.run(both(), horizon=1000.0)
+        finally:
+            CLOCK.stop()
+        for es, (pth, n, tag, d), r in zip(ess, specs, results):
+            if isinstance(r, BaseException):
+                v = ("composite-runner:raises-" + type(r).__name__, f"operation on {pth}: {type(r).__name__}: {r}")
+            elif r.get("pages") != n or len(es.requests) != n:
+                v = ("composite-runner:pages", f"operation on {pth}: {r.get('pages')} pages reported, {len(es.requests)} requests, the result set has {n} pages")
+            else:
+                for i, (_m, _p, b_) in enumerate(es.requests):
+                    node = b_
+                    for p_ in pth:
+                        node = node["aggs"][p_]
+                    want_after = None if i == 0 else es.pages[i - 1]["aggregations"]
+                    if want_after is not None:
+                        for p_ in pth:
+                            want_after = want_after[p_]
+                        want_after = want_after["after_key"]
+                    if node["composite"].get("after") != want_after:
+                        v = ("composite-runner:cursor", f"operation on {pth}: request {i} sent after={node['composite'].get('after')!r}, the previous page carried {want_after!r}")
+                        break
+            if v:
+                break
+    except Exception as e:  # noqa
+        v = ("composite-runner:raises-" + type(e).__name__, f"{type(e).__name__}: {e}")
+    res.case(
+        case_repr={"composite_runner": "two operations on one Query instance", "pages": [pages_a, pages_b], "request_delays": list(delays)} if res.sample_now(5) else None,
+        nontrivial_key=("composite-runner", pages_a, pages_b, delays),
+        outcome_key=("composite-runner", pages_a, pages_b, v[0] if v else "ok"),
+    )
+    if v:
+        res.violation(f"{v[0]}:concurrent-operations", f"pages {pages_a}/{pages_b}, request delays {delays}: {v[1]}", {"kind": "composite-runner", "pages": [pages_a, pages_b], "delays": list(delays)})
+
+
 # ------------------------------------------------------------------------------------------------ driver
 
 
@@ -554,6 +641,9 @@ def _shard(arg):
             for order in orders(list(doc)):
                 for style, ascii_ in STYLES:
                     check_composite(doc, path, after, order, style, ascii_, res)
+    elif kind == "composite-runner":
+        for a in items:
+            check_composite_runner(*a, res)
     else:
         for a in items:
             check_query_runner(*a, res)
@@ -573,6 +663,9 @@ def run(tier, seed):
                         q.append((total, size, tf, timed, mode))
     jobs = [("bulk", ch) for ch in par.chunks(bulk, par.NPROC * 2)] + [("search", ch) for ch in par.chunks(search, par.NPROC * 2)]
     jobs += [("composite", comp), ("query", q)]
+    # request delays decide how the two operations interleave at their awaits (equal, one faster, the other faster)
+    cr = [(pa, pb, d) for pa in (1, 2, 3, 4) for pb in (1, 2, 3, 4) for d in ((0.25, 0.25), (0.125, 0.5), (0.5, 0.125), (0.25, 0.375))]
+    jobs += [("composite-runner", cr)]
     res = par.pmap(_shard, jobs, seed=seed)
     res.extra["bulk_item_lists"] = len(bulk)
     res.extra["search_documents"] = len(search)
@@ -592,6 +685,8 @@ def replay(data):
         check_bulk(data["items"], data["flag_mode"], data["order"], data["style"], data["ascii"], data["ingest"], res)
     elif k == "search":
         check_search(data["doc"], [f for f in data["feats"] if f != "pretty-whitespace"], data["order"], data["style"], data["ascii"], res)
+    elif k == "composite-runner":
+        check_composite_runner(data["pages"][0], data["pages"][1], tuple(data["delays"]), res)
     elif k == "composite":
         check_composite(data["doc"], data["path"], data["after"], data["order"], data["style"], data["ascii"], res)
     else:
